@@ -187,6 +187,10 @@ func (a *UtilArgs) readInputFilePubKey() (peer.Peer, error) {
 	if err != nil {
 		return nil, err
 	}
+	if key == nil {
+		// no pem block: NewPeerWithPubKey would dereference the nil key.
+		return nil, errors.New("no pem public key found")
+	}
 
 	le := a.GetLogger()
 	npeer, err := peer.NewPeerWithPubKey(key)
